@@ -57,7 +57,19 @@ def plum_to_kiwi_future(plum_future: futures.Future) -> kiwipy.Future:
                     result = plum_to_kiwi_future(result)
                 kiwi_future.set_result(result)
 
-    plum_future.add_done_callback(on_done)
+    loop = plum_future.get_loop()
+    try:
+        on_loop_thread = asyncio.get_running_loop() is loop
+    except RuntimeError:
+        on_loop_thread = False
+
+    if on_loop_thread:
+        plum_future.add_done_callback(on_done)
+    else:
+        # Futures of the event loop are not thread safe, and this function is called from the communicator's thread (see
+        # ``convert_to_comm``): if the future is done already, ``add_done_callback`` schedules the callback with a plain
+        # ``call_soon`` which does not wake the loop up, and the outcome never arrives.  Register it from the loop's thread.
+        loop.call_soon_threadsafe(plum_future.add_done_callback, on_done)
     return kiwi_future
 
 
